@@ -116,4 +116,170 @@ theorem toF32_of_fields (sg e mt : Nat) (hs : sg < 2) (he : e < 2048) (hm : mt <
 /-- not a signalling NaN: exponent field below 255, or infinity, or a NaN with the quiet bit set -/
 def F32Quiet (f : Nat) : Prop := f / 8388608 % 256 ≠ 255 ∨ f % 8388608 = 0 ∨ 4194304 ≤ f % 8388608
 
+theorem toF32'_nan (sg pl : Nat) (h : ¬ pl = 0) :
+    toF32' sg 2047 pl = sg * 2147483648 + 2139095040 + 4194304 + (pl / 536870912) % 4194304 := by
+  unfold toF32'
+  rw [if_pos rfl, if_neg h]
+
+theorem toF32'_inf (sg : Nat) : toF32' sg 2047 0 = sg * 2147483648 + 2139095040 := by
+  unfold toF32'
+  rw [if_pos rfl, if_pos rfl]
+
+theorem toF32'_zero (sg mt : Nat) : toF32' sg 0 mt = sg * 2147483648 := by
+  unfold toF32'
+  rw [if_neg (by decide), if_pos rfl]
+
+theorem case_inf (sg : Nat) (hsg : sg < 2) :
+    toF32 (sg * 9223372036854775808 + 2047 * 4503599627370496) = sg * 2147483648 + 255 * 8388608 + 0 := by
+  have := toF32_of_fields sg 2047 0 hsg (by decide) (by decide)
+  rw [Nat.add_zero] at this
+  rw [this, toF32'_inf]
+
+theorem case_zero (sg : Nat) (hsg : sg < 2) : toF32 (sg * 9223372036854775808) = sg * 2147483648 + 0 * 8388608 + 0 := by
+  have := toF32_of_fields sg 0 0 hsg (by decide) (by decide)
+  simp only [Nat.zero_mul, Nat.add_zero] at this
+  rw [this, toF32'_zero]
+  omega
+
+theorem qnan_payload (m : Nat) (h1 : 4194304 ≤ m) (h2 : m < 8388608) :
+    (2251799813685248 + m % 4194304 * 536870912) / 536870912 % 4194304 = m - 4194304 := by omega
+
+theorem case_qnan (sg m : Nat) (hsg : sg < 2) (h1 : 4194304 ≤ m) (h2 : m < 8388608) :
+    toF32 (sg * 9223372036854775808 + 2047 * 4503599627370496 + 2251799813685248 + m % 4194304 * 536870912) =
+      sg * 2147483648 + 255 * 8388608 + m := by
+  have hv : sg * 9223372036854775808 + 2047 * 4503599627370496 + 2251799813685248 + m % 4194304 * 536870912 =
+      sg * 9223372036854775808 + 2047 * 4503599627370496 + (2251799813685248 + m % 4194304 * 536870912) := by omega
+  have hlt : 2251799813685248 + m % 4194304 * 536870912 < 4503599627370496 := by omega
+  have hne : ¬ (2251799813685248 + m % 4194304 * 536870912 = 0) := by omega
+  rw [hv, toF32_of_fields sg 2047 _ hsg (by decide) hlt, toF32'_nan sg _ hne, qnan_payload m h1 h2]
+  clear hv hlt hne
+  omega
+
+theorem toF32'_sub (sg e mt : Nat) (he0 : ¬ e = 0) (he : e < 897) (hs : 0 < 897 - e + 29) :
+    toF32' sg e mt = if 897 - e + 29 > 60 then sg * 2147483648 else sg * 2147483648 + rne (4503599627370496 + mt) (897 - e + 29) := by
+  unfold toF32'
+  rw [if_neg (by omega), if_neg he0]
+  dsimp only
+  have hge : ¬ ((e : Int) - 1023 ≥ -126) := by omega
+  rw [if_neg hge]
+  have hshift : Int.toNat (-126 - ((e : Int) - 1023)) + 29 = 897 - e + 29 := by omega
+  rw [hshift]
+
+theorem case_sub_aux (sg m k M : Nat) (hsg : sg < 2) (hk : k < 23) (h1 : 4503599627370496 ≤ M) (h2 : M < 9007199254740992)
+    (hrne : rne M (52 - k) = m) (hm2 : m < 8388608) :
+    toF32 (sg * 9223372036854775808 + (1023 + k - 149) * 4503599627370496 + M % 4503599627370496) =
+      sg * 2147483648 + 0 * 8388608 + m := by
+  have hval : sg * 9223372036854775808 + (1023 + k - 149) * 4503599627370496 + M % 4503599627370496 =
+      sg * 9223372036854775808 + (874 + k) * 4503599627370496 + (M - 4503599627370496) := by omega
+  rw [hval, toF32_of_fields sg (874 + k) (M - 4503599627370496) hsg (by omega) (by omega)]
+  rw [toF32'_sub sg (874 + k) _ (by omega) (by omega) (by omega)]
+  have e5 : 4503599627370496 + (M - 4503599627370496) = M := by omega
+  have e6 : 897 - (874 + k) + 29 = 52 - k := by omega
+  rw [e5, e6, if_neg (by omega), hrne]
+  clear hval e5 e6 hrne h1 h2
+  omega
+
+theorem case_sub (sg m : Nat) (hsg : sg < 2) (hm0 : m ≠ 0) (hm2 : m < 8388608) :
+    toF32 (sg * 9223372036854775808 + (1023 + m.log2 - 149) * 4503599627370496 + (m * 2 ^ (52 - m.log2)) % 4503599627370496) =
+      sg * 2147483648 + 0 * 8388608 + m := by
+  have hk1 : 2 ^ m.log2 ≤ m := Nat.log2_self_le hm0
+  have hk2 : m < 2 ^ (m.log2 + 1) := Nat.lt_log2_self
+  have hk : m.log2 < 23 := (Nat.log2_lt hm0).2 (by simpa using hm2)
+  have hqp : 2 ^ m.log2 * 2 ^ (52 - m.log2) = 4503599627370496 := by
+    rw [← Nat.pow_add]
+    have : m.log2 + (52 - m.log2) = 52 := by omega
+    rw [this]
+  have hqpos : 0 < 2 ^ (52 - m.log2) := Nat.pow_pos (by decide)
+  have h1 : 4503599627370496 ≤ m * 2 ^ (52 - m.log2) := by rw [← hqp]; exact Nat.mul_le_mul_right _ hk1
+  have h2 : m * 2 ^ (52 - m.log2) < 9007199254740992 := by
+    have : m * 2 ^ (52 - m.log2) < 2 ^ (m.log2 + 1) * 2 ^ (52 - m.log2) := Nat.mul_lt_mul_of_pos_right hk2 hqpos
+    rw [Nat.pow_succ, Nat.mul_assoc, Nat.mul_comm 2, ← Nat.mul_assoc, hqp] at this
+    omega
+  exact case_sub_aux sg m m.log2 (m * 2 ^ (52 - m.log2)) hsg hk h1 h2 (rne_exact m (52 - m.log2)) hm2
+
+theorem toF32'_norm (sg e q : Nat) (mt : Nat) (he0 : ¬ e = 0) (he1 : 897 ≤ e) (he2 : e < 1151)
+    (hq : rne (4503599627370496 + mt) 29 = q) (hq1 : q ≠ 16777216) :
+    toF32' sg e mt = sg * 2147483648 + (e - 896) * 8388608 + (q - 8388608) := by
+  unfold toF32'
+  rw [if_neg (by omega), if_neg he0]
+  dsimp only
+  have hge : ((e : Int) - 1023 ≥ -126) := by omega
+  rw [if_pos hge, hq, if_neg hq1]
+  dsimp only
+  rw [if_neg (by omega)]
+  have : Int.toNat ((e : Int) - 1023 + 127) = e - 896 := by omega
+  rw [this]
+
+theorem case_norm (sg e m : Nat) (hsg : sg < 2) (he0 : e ≠ 0) (he : e < 255) (hm2 : m < 8388608) :
+    toF32 (sg * 9223372036854775808 + (e + 896) * 4503599627370496 + m * 536870912) =
+      sg * 2147483648 + e * 8388608 + m := by
+  rw [toF32_of_fields sg (e + 896) (m * 536870912) hsg (by omega) (by omega)]
+  have hsig : 4503599627370496 + m * 536870912 = (8388608 + m) * 2 ^ 29 := by
+    have : (2 : Nat) ^ 29 = 536870912 := by decide
+    rw [this]; omega
+  have hr : rne (4503599627370496 + m * 536870912) 29 = 8388608 + m := by rw [hsig]; exact rne_exact _ _
+  rw [toF32'_norm sg (e + 896) (8388608 + m) _ (by omega) (by omega) (by omega) hr (by omega)]
+  clear hr hsig
+  omega
+
+/-- **`(x as f64) as f32 = x`** for every f32 bit pattern that is not a signalling NaN
+    (a signalling NaN comes back quieted, as on the hardware) -/
+theorem toF32_ofF32 (f : Nat) (hf : f < 4294967296) (hq : F32Quiet f) : toF32 (ofF32 f) = f := by
+  unfold F32Quiet at hq
+  have hsplit : f = (f / 2147483648 % 2) * 2147483648 + (f / 8388608 % 256) * 8388608 + f % 8388608 := by omega
+  unfold ofF32
+  have hsg2 : f / 2147483648 % 2 < 2 := by omega
+  have he2 : f / 8388608 % 256 < 256 := by omega
+  have hm2 : f % 8388608 < 8388608 := by omega
+  generalize f / 2147483648 % 2 = sg at hsplit hsg2
+  generalize f / 8388608 % 256 = e at hsplit hq he2
+  generalize f % 8388608 = m at hsplit hq hm2
+  dsimp only
+  rw [hsplit]
+  clear hsplit hf
+  by_cases h255 : e = 255
+  · rw [if_pos h255]
+    by_cases hm0 : m = 0
+    · rw [if_pos hm0, h255, hm0]; exact case_inf sg hsg2
+    · rw [if_neg hm0, h255]
+      have hquiet : 4194304 ≤ m := by
+        rcases hq with h | h | h
+        · exact absurd h255 h
+        · exact absurd h hm0
+        · exact h
+      exact case_qnan sg m hsg2 hquiet hm2
+  · rw [if_neg h255]
+    by_cases he0 : e = 0
+    · rw [if_pos he0]
+      by_cases hm0 : m = 0
+      · rw [if_pos hm0, he0, hm0]; exact case_zero sg hsg2
+      · rw [if_neg hm0, he0]; exact case_sub sg m hsg2 hm0 hm2
+    · rw [if_neg he0]
+      exact case_norm sg e m hsg2 he0 (by omega) hm2
+
+theorem ofF32_lt (f : Nat) (hf : f < 4294967296) : ofF32 f < 18446744073709551616 := by
+  unfold ofF32
+  have hsg2 : f / 2147483648 % 2 < 2 := by omega
+  have he2 : f / 8388608 % 256 < 256 := by omega
+  have hm2 : f % 8388608 < 8388608 := by omega
+  generalize f / 2147483648 % 2 = sg at hsg2
+  generalize f / 8388608 % 256 = e at he2
+  generalize f % 8388608 = m at hm2
+  dsimp only
+  split
+  · split
+    · omega
+    · omega
+  · split
+    · split
+      · omega
+      · rename_i hm0
+        have hk : m.log2 < 23 := (Nat.log2_lt hm0).2 (by simpa using hm2)
+        have : m * 2 ^ (52 - log2 m) % 4503599627370496 < 4503599627370496 := Nat.mod_lt _ (by decide)
+        unfold log2 at this ⊢
+        generalize m * 2 ^ (52 - m.log2) % 4503599627370496 = r at this
+        generalize m.log2 = k at hk
+        omega
+    · omega
+
 end Rml.F64
